@@ -25,7 +25,7 @@ DIGEST = rc.comp(1, bytes(32))
 def run(ctx):
     ctx.rule = RULE
     rng = ctx.rng
-    nsch = ctx.n(100, 6000)
+    nsch = ctx.n(80, 6000)
     templates = []
     for _ in range(ctx.n(3, 12)):
         templates += lvs.template_schemas(rng, True)
@@ -63,6 +63,12 @@ def run(ctx):
         try:
             m2 = bny.LvsModel.parse(checker.save())
             m2.symbols = [] if si % 2 == 0 else list(m2.symbols)[::2]
+            if si % 3 != 1:
+                # no order is prescribed for a node's signing constraints or value edges: written the other way round
+                for nd in m2.nodes:
+                    nd.sign_cons = list(nd.sign_cons)[::-1]
+                    nd.v_edges = list(nd.v_edges)[::-1]
+                ctx.event('model-with-reordered-lists')
             nosym = Checker.load(bytes(m2.encode()), lvs.USER_FNS)
             ctx.event('model-without-symbol-table')
         except Exception as e:   # noqa
